@@ -165,22 +165,22 @@ Definition cont (fuel : nat) (fl : flags) (r : pres (str * option str)) : pres (
 Lemma parse_args_fuel_S f fl l : parse_args_fuel (S f) fl l = cont f fl (skip fl l).
 Proof. reflexivity. Qed.
 
-Lemma in_arg_rearg_step c l acc : (c =? c_sp) = false -> (c =? c_hash) = false ->
+Lemma in_arg_rearg_step c l acc : (c =? c_sp) = false ->
   in_arg fl_rearg (c :: l) acc false false false = in_arg fl_rearg l (c :: acc) false false false.
 Proof.
-  intros H1 H2. cbn [in_arg fl_rearg control_as_char allow_control stop_on_equals andb negb].
-  rewrite H1, H2. destruct (c =? c_bs); reflexivity.
+  intros H1. cbn [in_arg fl_rearg control_as_char allow_control stop_on_equals andb negb].
+  rewrite H1, andb_false_r. destruct (c =? c_bs); reflexivity.
 Qed.
 Lemma in_arg_rearg_sp l acc :
   in_arg fl_rearg (c_sp :: l) acc false false false = POk (c_sp :: l, finish acc false).
 Proof. reflexivity. Qed.
 Lemma skip_sp fl l : skip fl (c_sp :: l) = skip fl l.
 Proof. reflexivity. Qed.
-Lemma skip_rearg_start c l : (c =? c_sp) = false -> (c =? c_hash) = false -> (c =? c_quote) = false ->
+Lemma skip_rearg_start c l : (c =? c_sp) = false -> (c =? c_quote) = false ->
   skip fl_rearg (c :: l) = in_arg fl_rearg l [c] false false false.
 Proof.
-  intros H1 H2 H3. cbn [skip fl_rearg control_as_char allow_control allow_quotes].
-  rewrite H1, H2, H3. destruct (c =? c_bs); reflexivity.
+  intros H1 H3. cbn [skip fl_rearg control_as_char allow_control allow_quotes negb].
+  rewrite andb_false_r, H1, H3. destruct (c =? c_bs); reflexivity.
 Qed.
 
 Lemma finish_nonempty acc : acc <> [] -> finish acc false = Some (rev acc).
@@ -190,19 +190,18 @@ Lemma has_char_cons c x s : has_char c (x :: s) = (c =? x) || has_char c s.
 Proof. reflexivity. Qed.
 
 Lemma rearg_words_joint : forall l,
-  (forall cur f, cur <> [] -> has_char c_hash l = false -> word_initial_quote_from false l = false ->
+  (forall cur f, cur <> [] -> word_initial_quote_from false l = false ->
      (length l < f)%nat ->
      cont f fl_rearg (in_arg fl_rearg l cur false false false) = POk (words_aux l cur)) /\
-  (forall f, has_char c_hash l = false -> word_initial_quote_from true l = false ->
+  (forall f, word_initial_quote_from true l = false ->
      (length l <= f)%nat ->
      cont f fl_rearg (skip fl_rearg l) = POk (words_aux l [])).
 Proof.
   induction l as [|c l [IHA IHB]]; split.
-  - intros cur f Hc _ _ Hf. cbn [in_arg]. rewrite finish_nonempty by assumption.
+  - intros cur f Hc _ Hf. cbn [in_arg]. rewrite finish_nonempty by assumption.
     destruct f as [|f]; [inversion Hf|]. cbn. destruct cur; [congruence | reflexivity].
-  - intros f _ _ _. reflexivity.
-  - intros cur f Hc Hh Hq Hf. rewrite has_char_cons in Hh. apply orb_false_iff in Hh.
-    destruct Hh as [Hh1 Hh]. rewrite N.eqb_sym in Hh1.
+  - intros f _ _. reflexivity.
+  - intros cur f Hc Hq Hf.
     cbn [word_initial_quote_from andb orb] in Hq.
     destruct (c =? c_sp) eqn:Esp.
     + apply N.eqb_eq in Esp. subst c. rewrite in_arg_rearg_sp, finish_nonempty by assumption.
@@ -213,8 +212,7 @@ Proof.
     + rewrite in_arg_rearg_step by assumption. cbn [length] in Hf.
       rewrite IHA by (try assumption; try discriminate; lia).
       cbn [words_aux]. now rewrite Esp.
-  - intros f Hh Hq Hf. rewrite has_char_cons in Hh. apply orb_false_iff in Hh.
-    destruct Hh as [Hh1 Hh]. rewrite N.eqb_sym in Hh1.
+  - intros f Hq Hf.
     cbn [word_initial_quote_from andb] in Hq. apply orb_false_iff in Hq. destruct Hq as [Hq1 Hq].
     cbn [length] in Hf.
     destruct (c =? c_sp) eqn:Esp.
@@ -229,7 +227,7 @@ Qed.
 Theorem reparse_words : forall v, known_spread_value v = false ->
   reparse_arguments v = POk (opt_list (words v)).
 Proof.
-  intros v H. unfold known_spread_value in H. apply orb_false_iff in H. destruct H as [Hq Hh].
+  intros v Hq. unfold known_spread_value, known_spread_quote in Hq.
   unfold reparse_arguments, parse_arguments_with. rewrite parse_args_fuel_S.
   destruct (rearg_words_joint v) as [_ B]. rewrite B; auto.
 Qed.
@@ -333,10 +331,11 @@ Lemma spread_quote_open_refuted :
   bind_args (env1 w_quote_open) [render_spread s_v] = [[]] /\
   words w_quote_open = [[97]; [34; 98]].
 Proof. vm_compute. auto. Qed.
-(* KF-C02-2: '#' in a spread value drops the rest of the value *)
+(* former KF-C02-2 (repaired): '#' in a spread value is data; a#b c spreads to [a#b; c] *)
 Definition w_hash : str := [97; 35; 98; 32; 99].                 (* a#b c *)
-Lemma spread_hash_refuted :
-  expand_by_wrapper (render_spread s_v) (env1 w_hash) = Multi [[97]] /\
+Lemma spread_hash_example :
+  known_spread_value w_hash = false /\
+  expand_by_wrapper (render_spread s_v) (env1 w_hash) = Multi [[97; 35; 98]; [99]] /\
   words w_hash = [[97; 35; 98]; [99]].
 Proof. vm_compute. auto. Qed.
 (* KF-C02-3: a '%' inside the name of \${name} flips the whole argument to spread mode *)
